@@ -65,7 +65,7 @@ def _phase(p):
 class KernelSet:
     """The three kernels of one problem, generated and JIT-compiled the way tensora does it."""
 
-    def __init__(self, assignment: str, formats: dict, capacity: int):
+    def __init__(self, assignment: str, formats: dict, capacity: int, backend_c: bool = False):
         from returns.result import Failure, Success
         from tensora.compile import tensor_cdefs
         from tensora.compile._compile_llvm import compile_module
@@ -116,10 +116,14 @@ class KernelSet:
                     self.inconsistent_kinds = why
                     raise Skip("kinds_inconsistent")
                 raise Skip(why)
-            try:
-                self.engine = compile_module(module)
-            except Exception as e:
-                raise Skip("compile:" + type(e).__name__)
+            self.lib = None
+            if backend_c:
+                self._compile_c(p, kinds)
+            else:
+                try:
+                    self.engine = compile_module(module)
+                except Exception as e:
+                    raise Skip("compile:" + type(e).__name__)
         except GenerationTimeout:
             raise Skip("generate:timeout")
         finally:
@@ -128,10 +132,51 @@ class KernelSet:
         self.names = list(p.formats.keys())
         self.out_name = p.assignment.target.name
         sig = f"int32_t (*)({', '.join(['void *'] * len(self.names))})"
-        self.fn = {
-            k: tensor_cdefs.cast(sig, self.engine.get_function_address(k)) for k in KINDS
-        }
+        if self.lib is not None:
+            self.fn = {k: getattr(self.lib, k) for k in KINDS}
+        else:
+            self.fn = {
+                k: tensor_cdefs.cast(sig, self.engine.get_function_address(k)) for k in KINDS
+            }
         self.out_format = p.formats[self.out_name]
+
+    def _compile_c(self, problem, kinds):
+        """The C text of all three kernels, compiled by gcc through cffi exactly as tensora's C
+        back end does it (same headers, same flags), allocator calls routed to the simulated
+        heap by the force-included tsim_alloc.h."""
+        import re
+        import shutil
+        import tempfile
+
+        from cffi import FFI
+        from returns.result import Success
+        from tensora.compile._cffi_ownership import taco_type_header, tensor_cdefs
+        from tensora.compile._compile_cffi import taco_define_header
+        from tensora.generate import Language, generate_code
+
+        r = generate_code(problem, kinds, Language.c)
+        if not isinstance(r, Success):
+            raise Skip("generate_c:" + type(r.failure()).__name__)
+        source = r.unwrap()
+        ffibuilder = FFI()
+        ffibuilder.include(tensor_cdefs)
+        found = re.findall(r"int(?:32_t)? (assemble|compute|evaluate)\(([^)]*)\)", source)
+        if sorted(n for n, _ in found) != sorted(KINDS):
+            raise Skip("generate_c:signatures")
+        for name, args in found:
+            ffibuilder.cdef(f"int32_t {name}({args});")
+        ffibuilder.set_source("taco_kernel", taco_define_header + taco_type_header + source,
+                              extra_compile_args=["-Wno-unused-variable", "-Wno-unknown-pragmas"])
+        tmp = tempfile.mkdtemp(prefix="tsim-kc-")
+        try:
+            try:
+                lib_path = ffibuilder.compile(tmpdir=tmp)
+            except Exception as e:
+                raise Skip("compile_c:" + type(e).__name__)
+            self.lib = ffibuilder.dlopen(lib_path)
+            self._ffibuilder = ffibuilder
+        finally:
+            shutil.rmtree(tmp, ignore_errors=True)
 
 
 def _new_struct(fmt_str, dims):
@@ -359,7 +404,8 @@ def run_plan(plan, cfg=None):
     res = {"verdict": "ok", "violations": [], "stats": {}, "probes": {}, "skip": None}
     _phase("generate")
     try:
-        ks = KernelSet(plan["problem"]["assignment"], plan["problem"]["formats"], plan["capacity"])
+        ks = KernelSet(plan["problem"]["assignment"], plan["problem"]["formats"], plan["capacity"],
+                       bool(plan.get("backend_c")))
     except Skip as s:
         if str(s) == "kinds_inconsistent":
             res["verdict"] = "violation"
@@ -373,6 +419,8 @@ def run_plan(plan, cfg=None):
         res["digest"] = "skip:" + str(s)
         return res
     res["capacity_knob"] = ks.capacity_knob
+    if plan.get("backend_c"):
+        res["probes"] = {"kernels_compiled_from_c_text": 1}
     twins = []
     stats = {}
     for t in (0, 1):
@@ -403,7 +451,7 @@ def run_plan(plan, cfg=None):
     res["violations"] = out
     if out:
         res["verdict"] = "violation"
-    res["probes"] = a.probes
+    res["probes"] = dict(a.probes, **res.get("probes", {}))
     levels = a.obs[0][2] if a.obs else None
     res["nontrivial"] = bool(
         any(ch in "s" for f in plan["problem"]["formats"].values() for ch in f)
@@ -451,7 +499,8 @@ def boot(cfg=None):
 def gen_plan(seed, cfg):
     from ..workload import CATALOGUE, gen_k_plan
 
-    return gen_k_plan(seed, seed % 8, CATALOGUE)
+    tier = (cfg or {}).get("tier", "quick")
+    return gen_k_plan(seed, seed % 8, CATALOGUE, p_backend_c=0.04 if tier == "quick" else 0.1)
 
 
 def run(plan, cfg=None):
@@ -469,6 +518,7 @@ def sample(plan, res):
         "sizes": plan["sizes"],
         "stored_entries": {n: len(t["entries"]) for n, t in plan["inputs"].items()},
         "recomputes": len(plan["revalues"]), "verdict": res["verdict"], "digest": res.get("digest"),
+        "back_end": "c" if plan.get("backend_c") else "llvm",
     }
 
 
